@@ -397,7 +397,39 @@ def limit_shapes(draw):
 
 
 @st.composite
+def star_over_subselect(draw):
+    """`SELECT [DISTINCT] * FROM (<join over two integrations>) AS q [WHERE ...] [LIMIT n]`: the outer query adds only one
+    clause to the sub-select's result (the planner decides per clause whether an outer step is needed)."""
+    a, b = draw(st.sampled_from([('int1', 't1'), ('int1', 't2')])), draw(st.sampled_from([('int2', 't3'), ('int2', 't4'), ('int2', 't1')]))
+    ca = draw(st.sampled_from([c for c, t in model.SCHEMA[a[1]] if t == 'int']))
+    cb = draw(st.sampled_from([c for c, t in model.SCHEMA[b[1]] if t == 'int']))
+    jk = draw(st.sampled_from(['JOIN', 'LEFT JOIN', 'INNER JOIN']))
+    inner = f'SELECT x1.{ca} AS c0, x2.{cb} AS c1 FROM {a[0]}.{a[1]} AS x1 {jk} {b[0]}.{b[1]} AS x2 ON (x1.a = x2.a)'
+    extra = draw(st.sampled_from(['distinct', 'distinct', 'where', 'limit', 'none']))
+    tags = {'shape:star-over-subselect', 'sub:from', 'star', 'join:' + jk, 'outer:' + extra}
+    sql = f'SELECT {"DISTINCT " if extra == "distinct" else ""}* FROM ({inner}) AS q1'
+    meta = {'order_cols': [], 'total_order': False, 'limit': False}
+    if extra == 'where':
+        sql += f' WHERE (q1.c0 {draw(st.sampled_from([">", "<=", "="]))} {draw(st.integers(0, 2))})'
+    elif extra == 'limit':
+        meta['sql_unlimited'] = sql
+        meta['limit'] = True
+        sql += f' LIMIT {draw(st.integers(1, 3))}'
+        tags |= {'limit', 'limit:unordered'}
+    if extra == 'distinct':
+        tags.add('distinct')
+    meta.update({'tags': sorted(tags), 'places': sorted({a[0], b[0]}), 'tables': sorted({f'{a[0]}.{a[1]}', f'{b[0]}.{b[1]}'}),
+                 'types': ['int', 'int']})
+    return {'sql': sql, 'meta': meta}
+
+
+@st.composite
 def cases(draw):
+    if draw(st.integers(0, 15)) == 0:
+        c = draw(star_over_subselect())
+        c['data'] = draw(model.table_data(DATA_TABLES))
+        c['catalog'] = draw(st.sampled_from(sorted(CATALOGS)))
+        return c
     if draw(st.integers(0, 7)) == 0:
         c = draw(limit_shapes())
         c['data'] = draw(model.table_data(DATA_TABLES))
